@@ -124,3 +124,30 @@ Proof.
   apply (obs_judgement_sound h n t x m pv x' m' pv' vals notes N Heq).
   exact (conts_ok_nth _ _ _ _ Hcs i _ _ _ Hp Ht Hc).
 Qed.
+
+(* ------------------------------------------------------------------ exclusive subscribers *)
+(* the judgement's record of a subscriber is the key -> value relation implied by the calls it
+   must have received ([sp_run]); its values are exactly the LIVE values of that call log -
+   "only the most recently registered key of each value counts" *)
+Lemma vals_of_sp_run_live : forall x log v, In v (vals_of (sp_run x log)) <-> live x log v.
+Proof.
+  intros x log v. rewrite vals_of_registered by (apply sp_fold_nodup; constructor).
+  unfold registered, live. split.
+  - intros [k H]. apply sp_run_bound in H. destruct H as [l1 [l2 H]]. exists l1, k, l2. exact H.
+  - intros [l1 [k [l2 H]]]. exists k. apply sp_run_bound. exists l1, l2. exact H.
+Qed.
+
+Lemma track_step_log : forall x log pv lv,
+  track_step lv (x, sp_run x log, pv) = (x, sp_run x (log ++ lv), vals_of (sp_run x (log ++ lv))).
+Proof. intros x log pv lv. unfold track_step, sp_run. rewrite fold_left_app. reflexivity. Qed.
+
+Lemma exclusive_judgement_sound : forall m prev log pv tv vals notes,
+  Check.cont_ok (true, m, prev) (true, sp_run true log, pv) tv (vals, notes) = true ->
+  forall v, In v vals <-> live true log v.
+Proof.
+  intros m prev log pv tv vals notes H v. unfold Check.cont_ok in H.
+  apply andb_true_iff in H. destruct H as [H _].
+  apply andb_true_iff in H. destruct H as [H _].
+  apply andb_true_iff in H. destruct H as [A _].
+  apply zs_eqb_eq in A. subst vals. apply vals_of_sp_run_live.
+Qed.
